@@ -43,7 +43,26 @@ def ivals(rng, n, cnt):
     v += [value(rng, n) for _ in range(cnt)]
     return v
 
+HEAVY = ('c01.leak.inv_odd_mod', 'c01.leak.gcd', 'c01.leak.inv_mod2k', 'c01.leak.monty', 'c01.leak.boxed_inv_mod2k', 'c01.hook.divsteps', 'c01.leak.sqrt')
+
 def gen(tier, rng):
+    """the lines of `gen_all`, with the ops whose leak model is slow (long traces) spread evenly over the stream, so that
+    the runner's contiguous chunks get the same share of them"""
+    lines = list(gen_all(tier, rng))
+    heavy = [l for l in lines if l.startswith(HEAVY)]
+    light = [l for l in lines if not l.startswith(HEAVY)]
+    if not heavy:
+        yield from light
+        return
+    step = max(1, len(light) // len(heavy))
+    hi = 0
+    for i, l in enumerate(light):
+        yield l
+        if i % step == step - 1 and hi < len(heavy):
+            yield heavy[hi]; hi += 1
+    yield from heavy[hi:]
+
+def gen_all(tier, rng):
     q = tier == 'quick'
     reps = 12 if q else 120
     small = W_SMALL
@@ -55,7 +74,7 @@ def gen(tier, rng):
     for _ in range(reps * 20):
         yield "c01.leak.limb " + " ".join(hx(limb_choice(rng)) for _ in range(4))
     for d in [1 << 63, WMAX, (1 << 63) + 1, WMAX - 1] + [limb_choice(rng) | (1 << 63) for _ in range(reps * 5)]:
-        yield f"c01.leak.reciprocal {hx(d)}"
+        yield f"c01.hook.reciprocal {hx(d)}"
     # ---- per width
     for n in allw:
         m = 1 << (64 * n)
@@ -83,8 +102,8 @@ def gen(tier, rng):
         vals = [0, 1, m - 1, m // 2, m // 2 - 1, m - 2] + [value(rng, n) for _ in range(r)]
         for a in vals:
             yield f"c01.leak.square_wide {n} {hx(a)}"
-            yield f"c01.leak.shr1 {n} {hx(a)}"
-            yield f"c01.leak.sqrt {n} {hx(a)}" if not big or rng.randrange(4) == 0 else f"c01.leak.shr1 {n} {hx(a)}"
+            yield f"c01.hook.shr1 {n} {hx(a)}"
+            yield f"c01.leak.sqrt {n} {hx(a)}" if not big or rng.randrange(4) == 0 else f"c01.hook.shr1 {n} {hx(a)}"
             for s in rng.sample(shifts(rng, n, 6), 4 if q else 10):
                 yield f"c01.leak.shl {n} {hx(a)} {s}"
                 yield f"c01.leak.shr {n} {hx(a)} {s}"
@@ -92,7 +111,7 @@ def gen(tier, rng):
                 yield f"c01.leak.shr_vartime {n} {hx(a)} {s}"
                 yield f"c01.leak.int_shr {n} {hx(a)} {s}"
             for s in rng.sample([0, 1, 31, 32, 62, 63], 3):
-                yield f"c01.leak.shl_limb {n} {hx(a)} {s}"
+                yield f"c01.hook.shl_limb {n} {hx(a)} {s}"
             for i in rng.sample([0, 1, 63, 64, 64 * n - 1, 64 * n, 64 * n + 1, rng.randrange(64 * n)], 3):
                 yield f"c01.leak.bits {n} {hx(a)} {i} {rng.randrange(2)}"
             d = rng.choice([1, 2, 3, WMAX, 1 << 63, (1 << 63) + 1, limb_choice(rng) or 1])
@@ -105,7 +124,7 @@ def gen(tier, rng):
             bb = rng.choice([p, below(rng, n, p), p - 1])
             lo, hi = max(0, bb - p + 1), min(2 * m - 1, bb + p - 1)
             v = rng.choice([lo, hi, rng.randrange(lo, hi + 1)])
-            yield f"c01.leak.sub_mod_with_carry {n} {hx(v % m)} {v // m} {hx(bb % m)} {hx(p)}"
+            yield f"c01.hook.sub_mod_with_carry {n} {hx(v % m)} {v // m} {hx(bb % m)} {hx(p)}"
         # division: every divisor length, dividends around multiples of the divisor
         for _ in range(max(2, r // (2 if big else 1))):
             a = value(rng, n)
@@ -192,6 +211,93 @@ def gen(tier, rng):
     for n in [48, 63, 64, 96, 98, 100, 130, 200]:
         yield f"c01.leak.boxed_square {n} {hx(value(rng, n))}"
         yield f"c01.leak.boxed_square {n} {hx((1 << (64 * n)) - 1)}"
+    for n in [1, 2, 3, 4, 6, 8]:
+        for a in [0, 1, (1 << (64 * n)) - 1] + [value(rng, n) for _ in range(6)]:
+            yield f"c01.hook.boxed_shr1 {n} {hx(a)}"
+    yield from gen_safegcd(tier, rng)
+
+def unsat_value(rng, u):
+    """u 62-bit limbs (two's complement over 62u bits), each held in a 64-bit word of the token"""
+    bits = 62 * u
+    k = rng.randrange(8)
+    if k == 0: v = 0
+    elif k == 1: v = 1
+    elif k == 2: v = (1 << bits) - 1                      # -1
+    elif k == 3: v = 1 << (bits - 1)                      # most negative
+    elif k == 4: v = (1 << (bits - 1)) - 1                # most positive
+    elif k == 5: v = (1 << bits) - rng.getrandbits(rng.randrange(1, bits))   # small negative
+    elif k == 6: v = rng.getrandbits(rng.randrange(1, bits))
+    else: v = rng.getrandbits(bits)
+    v %= 1 << bits
+    return sum(((v >> (62 * i)) & ((1 << 62) - 1)) << (64 * i) for i in range(u))
+
+def i64tok(rng):
+    k = rng.randrange(8)
+    if k == 0: return 0
+    if k == 1: return 1
+    if k == 2: return WMAX                       # -1
+    if k == 3: return (1 << 62)                  # 2^62
+    if k == 4: return WMAX - (1 << 62) + 1       # -2^62
+    if k == 5: return rng.getrandbits(rng.randrange(1, 63))
+    return (WMAX + 1 - rng.getrandbits(rng.randrange(1, 63))) & WMAX
+
+def gen_safegcd(tier, rng):
+    q = tier == 'quick'
+    reps = 40 if q else 400
+    for u in [1, 2, 3, 4, 6]:
+        for _ in range(reps):
+            yield f"c01.hook.unsat {u} {hx(unsat_value(rng, u))} {hx(unsat_value(rng, u))} {hx(i64tok(rng))}"
+        x = unsat_value(rng, u)
+        yield f"c01.hook.unsat {u} {hx(x)} {hx(x)} {hx(1)}"
+    for n in [1, 2, 3, 4, 6, 8]:
+        m = 1 << (64 * n)
+        for a in [0, 1, m - 1, m // 2] + [value(rng, n) for _ in range(reps // 4)]:
+            yield f"c01.hook.unsat_conv {n} {hx(a)}"
+    # jump: f odd (62-bit words), g any, delta small either sign
+    m62 = (1 << 62) - 1
+    for _ in range(reps * 3):
+        f = rng.choice([1, m62, 3, rng.getrandbits(62) | 1, limb_choice(rng) & m62 | 1])
+        g = rng.choice([0, 1, 2, m62, 1 << 61, rng.getrandbits(62), limb_choice(rng) & m62, 1 << rng.randrange(62)])
+        d = rng.choice([1, 0, 2, 5, 62, WMAX, WMAX - 1, WMAX - 61, WMAX - 100, rng.randrange(1, 200), (WMAX + 1 - rng.randrange(1, 200)) & WMAX])
+        yield f"c01.hook.jump {hx(f)} {hx(g)} {hx(d)}"
+    # fg / de with matrices as `jump` produces them (|entries| <= 2^62) and arbitrary ones
+    for u in [2, 3, 4, 6]:
+        for _ in range(reps // 2):
+            # rows as `jump` can produce them: |t_i0| + |t_i1| <= 2^62 (outside, `md` and the u128 products leave the
+            # domain on which `de` / `UnsatInt::mul` are defined: -other overflows for i64::MIN)
+            def row():
+                a = rng.choice([0, 1, 1 << 62, 1 << 61, rng.getrandbits(rng.randrange(1, 63))])
+                a = min(a, 1 << 62)
+                b = rng.choice([0, 1, (1 << 62) - a, rng.randrange(0, (1 << 62) - a + 1)])
+                sa, sb = rng.choice([1, -1]), rng.choice([1, -1])
+                return [(sa * a) & WMAX, (sb * b) & WMAX]
+            t = row() + row()
+            f, g, d, e = (unsat_value(rng, u) for _ in range(4))
+            mod = unsat_value(rng, u) | 1
+            inv = rng.getrandbits(62)
+            yield f"c01.hook.fgde {u} {hx(f)} {hx(g)} {hx(d)} {hx(e)} {hx(mod)} {hx(inv)} " + " ".join(hx(x) for x in t)
+    # divsteps on unsaturated operands (f0 odd, non-negative operands as the callers pass them)
+    for u in [2, 3, 4]:
+        for _ in range(max(3, reps // 8)):
+            bits = 62 * u - 2
+            f0 = rng.getrandbits(rng.randrange(1, bits)) | 1
+            g = rng.choice([0, 1, f0, rng.getrandbits(rng.randrange(1, bits)), f0 * 3 % (1 << bits)])
+            enc = lambda v: sum(((v >> (62 * i)) & m62) << (64 * i) for i in range(u))
+            inv = (-pow(f0, -1, 1 << 62)) % (1 << 62)   # what inv_mod2_62 computes for an odd f0?  (any word is accepted by the hook)
+            yield f"c01.hook.divsteps {u} {hx(enc(1))} {hx(enc(f0))} {hx(enc(g))} {hx(rng.choice([inv, rng.getrandbits(62)]))}"
+    for n in ([1, 2, 3, 4] if q else [1, 2, 3, 4, 6, 8]):
+        m = 1 << (64 * n)
+        for _ in range(max(2, (8 if q else 40) // n)):
+            mod = rng.choice([m - 1, value(rng, n) | 1, 3, 5, (m >> 1) + 1, m - rng.randrange(1, 1000, 2) * 2 + 1])
+            if mod < 3: mod = 3
+            v = rng.choice([0, 1, mod - 1 if mod > 1 else 0, value(rng, n) % mod, mod // 2, 2, value(rng, n)])
+            yield f"c01.leak.inv_odd_mod {n} {hx(mod)} {hx(v)}"
+            a, b = pair(rng, n)
+            yield f"c01.leak.gcd {n} {hx(a)} {hx(b)}"
+            sh = rng.randrange(0, 64 * n)
+            yield f"c01.leak.gcd {n} {hx((a << sh) % m)} {hx((b << rng.randrange(0, 64 * n)) % m)}"
+        for a, b in [(0, 0), (0, 5), (5, 0), (m - 1, m - 1), (m // 2, m // 2), (1, m - 1), (6, 9)]:
+            yield f"c01.leak.gcd {n} {hx(a)} {hx(b)}"
 
 def nontrivial(line):
     return any(len(t) > 2 for t in line.split()[1:])
